@@ -775,6 +775,22 @@ fn handle_after_removal_episode(sess: &mut Session, rng: &mut Rng, rep: &mut Rep
         old.write_all(&vec![0x9Au8; pending]).map_err(io("write (left in the buffer)"))?;
     }
     cf.remove_stream("/rm/gone").map_err(io("remove_stream"))?;
+    // one time in three the creation that takes the freed slot first fails on a hiccup of
+    // the store (one underlying write or seek fails) and is then repeated
+    let hiccup: Option<u64> = if reuse != 0 && rng.chance(1, 3) { Some(rng.below(50)) } else { None };
+    if let Some(k) = hiccup {
+        sess.shared.arm(vec![crate::backend::Fault { kinds: crate::backend::K_WRITE | crate::backend::K_SEEK, k, err: std::io::ErrorKind::Other, sticky: false, partial: false }]);
+        let r0 = if reuse == 1 { sess.cf().create_new_stream("/rm/new").map(|_| ()) } else { sess.cf().create_storage("/rm/new") };
+        sess.shared.disarm();
+        match r0 {
+            Ok(()) => {
+                // the fault was not reached: undo, so that the creation below is the first
+                let _ = if reuse == 1 { sess.cf().remove_stream("/rm/new") } else { sess.cf().remove_storage("/rm/new") };
+            }
+            Err(_) => rep.count("handle_after_removal.slot_taken_after_a_failed_creation"),
+        }
+    }
+    let cf = sess.cf();
     match reuse {
         1 => {
             let mut s = cf.create_new_stream("/rm/new").map_err(io("create_new_stream"))?;
